@@ -23,6 +23,7 @@ package parse
 
 import (
 	"fmt"
+	"strings"
 )
 
 type Pos int
@@ -495,6 +496,16 @@ func (n *node) buildSymbols() (error, Pos) {
 	return nil, Pos(0)
 }
 func (n *node) check() error {
+
+	// A keyword without a prefix that is not a YANG keyword is not an
+	// extension statement (RFC 6020 section 6.3.1: unknown-statement =
+	// prefix ":" identifier ...); the internal names of the deviate
+	// variants and of the unknown type itself are not keywords either.
+	switch {
+	case n.Type() == NodeUnknown && !strings.Contains(n.stmt, ":"),
+		n.IsDeviateNode() && n.stmt != "deviate":
+		return fmt.Errorf("unknown statement '%s'", n.stmt)
+	}
 
 	switch n.Type() {
 	case NodeModule, NodeSubmodule:
